@@ -350,6 +350,86 @@ func stress(r *mon.Run, c Case) {
 		r.Violate("concurrent/precomputed-table-modified", "table digest changed during the stress run", c)
 	}
 	inspectCache(r, inner, capacity, c)
+	herd(r, c, rng)
+}
+
+// herd: every goroutine makes the SAME call with the SAME arguments at the same moment (released together by a closed
+// channel), round after round, on a shared caching verifier that does not hold the key yet: concurrent misses for one
+// key. The keys are the ones a verifier meets in the wild: valid, undecodable, of small order, non-canonical. Each
+// call's result (or panic) is compared with what the call gives sequentially.
+func herd(r *mon.Run, c Case, rng *rand.Rand) {
+	priv := ed25519.NewKeyFromSeed(mon.Bytes(rng, 32))
+	msg := mon.Bytes(rng, 33)
+	sig := ed25519.Sign(priv, msg)
+	undecodable := make([]byte, 32)
+	for {
+		copy(undecodable, mon.Bytes(rng, 32))
+		if _, err := ed25519.NewExpandedPublicKey(undecodable); err != nil {
+			break
+		}
+	}
+	two := make([]byte, 32)
+	two[0] = 2 // y = 2 is not on the curve
+	smallOrder := make([]byte, 32)
+	smallOrder[0] = 1 // the identity
+	nonCanonical := bytes.Repeat([]byte{0xff}, 32)
+	nonCanonical[0], nonCanonical[31] = 0xee, 0x7f // y = p + 1
+	idSig := append(append([]byte{}, smallOrder...), make([]byte, 32)...)
+	type hc struct {
+		name string
+		pk   []byte
+		sig  []byte
+		opts *ed25519.Options
+	}
+	calls := []hc{
+		{"valid key", []byte(priv.Public().(ed25519.PublicKey)), sig, &ed25519.Options{Verify: ed25519.VerifyOptionsDefault}},
+		{"undecodable key (PRNG)", undecodable, sig, &ed25519.Options{Verify: ed25519.VerifyOptionsDefault}},
+		{"undecodable key (y = 2)", two, sig, &ed25519.Options{Verify: ed25519.VerifyOptionsZIP_215}},
+		{"small-order key, strict", smallOrder, idSig, &ed25519.Options{Verify: ed25519.VerifyOptionsDefault}},
+		{"small-order key, ZIP-215", smallOrder, idSig, &ed25519.Options{Verify: ed25519.VerifyOptionsZIP_215}},
+		{"non-canonical key, ZIP-215", nonCanonical, idSig, &ed25519.Options{Verify: ed25519.VerifyOptionsZIP_215}},
+	}
+	G := c.Clients
+	rounds := 12
+	var bad int64
+	var first atomic.Value
+	for _, h := range calls {
+		var want bool
+		wantPan, _ := mon.Try(func() { want = ed25519.VerifyWithOptions(h.pk, msg, h.sig, h.opts) })
+		for round := 0; round < rounds; round++ {
+			v := cache.NewVerifier(cache.NewLRUCache(2)) // fresh: the key is not cached, every goroutine misses
+			start := make(chan struct{})
+			var wg sync.WaitGroup
+			for g := 0; g < G; g++ {
+				wg.Add(1)
+				go func(g int) {
+					defer wg.Done()
+					<-start
+					for rep := 0; rep < 3; rep++ {
+						var got, gotB bool
+						pan, pmsg := mon.Try(func() {
+							got = v.VerifyWithOptions(h.pk, msg, h.sig, h.opts)
+							bv := ed25519.NewBatchVerifier()
+							v.AddWithOptions(bv, h.pk, msg, h.sig, h.opts)
+							gotB, _ = bv.Verify(nil)
+						})
+						if pan != wantPan || (!pan && (got != want || gotB != want)) {
+							if atomic.AddInt64(&bad, 1) == 1 {
+								first.Store(fmt.Sprintf("%s: goroutine %d round %d: Verify=%v batch=%v panic=%v (%s); sequentially %v panic=%v", h.name, g, round, got, gotB, pan, pmsg, want, wantPan))
+							}
+						}
+					}
+				}(g)
+			}
+			close(start)
+			wg.Wait()
+			r.EvalN(int64(3 * G))
+		}
+		r.HistN("herd/"+h.name, int64(3*G*rounds))
+	}
+	if bad > 0 {
+		r.Violate("concurrent/simultaneous-identical-calls-differ-from-sequential", fmt.Sprintf("%d calls; first: %v", bad, first.Load()), c)
+	}
 }
 
 func head(b []byte) []byte {
